@@ -38,7 +38,7 @@ def check(case: Dict[str, Any]) -> CaseInfo:
     analysed = ORDER[:2] + ([vocab.MEMORY] if p["memory"] else [])
     with scratch_dir() as d:
         files = write_case(case, d)
-        ta = load_analysis(files, d, mp=case.get("mp", False))
+        ta = load_analysis(files, d, mp=case.get("mp", False), prelude=case.get("prelude"))
         type_df, kern_df = hta_call("get_gpu_kernel_breakdown", lambda: ta.get_gpu_kernel_breakdown(
             visualize=False, duration_ratio=p["ratio"], num_kernels=p["num_kernels"], include_memory_kernels=p["memory"]))
     classes: List[str] = []
@@ -155,7 +155,9 @@ def ann_case(draw):
                 events.append({"ph": "X", "cat": "user_annotation", "name": name, "pid": 1000 + r, "tid": 1000 + r, "ts": ts, "dur": dur,
                                "args": {"External id": 6}})
         ranks.append({"rank": r, "events": events})
-    return {"ranks": ranks, "fmt": "json", "params": {
+    from hv.hta_io import prelude_strategy
+
+    return {"ranks": ranks, "fmt": "json", "prelude": draw(prelude_strategy()), "params": {
         "gpu": draw(st.sampled_from([True, False])), "num_kernels": draw(st.sampled_from([1, 2, 3, 5, 1000])),
         "ratio": draw(st.sampled_from([0.8, 0.5, 0.2, 1.0])),
         "allow": draw(st.sampled_from([None, None, ["loss"], ["u_block"], ["forward", "optimizer"]]))}}
@@ -169,7 +171,7 @@ def check_ann(case: Dict[str, Any]) -> CaseInfo:
     cat = "gpu_user_annotation" if p["gpu"] else "user_annotation"
     with scratch_dir() as d:
         files = write_case(case, d)
-        ta = load_analysis(files, d)
+        ta = load_analysis(files, d, prelude=case.get("prelude"))
         df = hta_call("get_gpu_user_annotation_breakdown", lambda: ta.get_gpu_user_annotation_breakdown(
             use_gpu_annotation=p["gpu"], visualize=False, duration_ratio=p["ratio"], num_kernels=p["num_kernels"],
             allowlist_patterns=p["allow"]))
